@@ -66,6 +66,21 @@ CLAIMED = {
   "CueLiteral.tla enumerates every sequence of <= 3 (thorough 4) symbols of a 17-symbol adversarial alphabet with each of 48 quoting forms (string/bytes x single/multi-line/optional multi-line x optional hashes x ASCII-only/graphic-only): Unquote(Quote(s)) must be s, and the quoted text must scan and parse as one literal. Its recogniser IsLit (single-line and multi-line literals with # delimiters and escapes, as a recursive operator) classifies every text over { \" \\ n a # LF } up to length 6 (thorough 8); scanner, parser and literal.Unquote must all agree with it. CueTokens.tla enumerates token soups of <= 3 (thorough 4) tokens from 36; each is parsed in two spacings: no panic, every error/node position inside the input, children within parents, siblings ordered.",
   "trusted: TLC, the recogniser (calibrated to full agreement with the three implementations on the unchanged tree), the position checker (canary: nodes outside the input must be flagged). Arbitrary byte strings are not enumerated: totality is claimed for grammar-shaped inputs only.",
   "DESIGN.md §3 C09"),
+ "C10": ("exploration",
+  "TLA+ spec DataCodec.tla (document shapes x key/leaf categories x behaviours, protocol: every operation preserves the data) enumerated by TLC; every state instantiated from adversarial pools and replayed on MarshalJSON / JSON Extract with Go's encoding/json as independent decoder",
+  "Model-driven exploration: DataCodec.tla enumerates every one-member document (8 key categories x 5 shapes x 26 x 26 leaf categories) and a seeded sample of two-member documents, each with the JSON behaviours (MarshalJSON -> Go decode; MarshalJSON -> Extract -> MarshalJSON -> Go decode; Go encode -> Extract -> MarshalJSON -> Go decode). After every step the bytes are read by Go's encoding/json (UseNumber, ordered tokens) or the value is projected, and compared with the generator's ground truth: strings byte for byte, numbers by exact rational value and kind, keys in declaration order. A fixed list of near-valid documents must be rejected and of unusual valid ones accepted with the same meaning.",
+  "trusted: TLC, the independent decoders (Go encoding/json with UseNumber and ordered tokens; yaml.v3 node tags), the category pools; canary: the data comparison must notice a changed scalar kind, number kind and key order. Byte-level content outside the pools is not covered (DESIGN.md §7).",
+  "DESIGN.md §3 C10-C12"),
+ "C11": ("exploration",
+  "TLA+ spec DataCodec.tla enumerated by TLC; every state instantiated from adversarial pools (YAML 1.1/1.2 implicit types, indicators in first/inner/last position, control/non-BMP characters, newline-only strings) and replayed on the YAML encoder/decoder with yaml.v3 as independent decoder",
+  "Model-driven exploration as for C10 with the YAML behaviours (Encode -> Extract, twice; MarshalJSON -> YAML Extract of the JSON text). The encoder output is read back with yaml.v3 (node tags decide string vs number vs bool vs null) and with CUE's decoder and must equal the ground truth, keys included.",
+  "trusted: TLC, the independent decoders (Go encoding/json with UseNumber and ordered tokens; yaml.v3 node tags), the category pools; canary: the data comparison must notice a changed scalar kind, number kind and key order. Byte-level content outside the pools is not covered (DESIGN.md §7).",
+  "DESIGN.md §3 C10-C12"),
+ "C12": ("exploration",
+  "TLA+ spec DataCodec.tla (CLI family: export --out E [--escape | -e path | package argument] -> import -> export json) enumerated/sampled by TLC; every state replayed on a cue binary built from the working tree",
+  "Model-driven exploration: a seeded sample of one- and two-member documents x 8 command-line behaviours over json, yaml, toml and cue, with --escape, -e and package-vs-file arguments; every exported text is read with an independent decoder and compared with the ground truth, every step must exit 0 (all data is concrete; TOML only for its safe subset: no null, integers within int64, 64-bit floats, key order not compared), and import followed by export --out json must reproduce the data.",
+  "trusted: TLC, the independent decoders (Go encoding/json with UseNumber and ordered tokens; yaml.v3 node tags), the category pools; canary: the data comparison must notice a changed scalar kind, number kind and key order. Byte-level content outside the pools is not covered (DESIGN.md §7).",
+  "DESIGN.md §3 C10-C12"),
 }
 
 NOT_YET = "check not built yet in this round (see DESIGN.md §8 for the order of construction)"
